@@ -344,14 +344,20 @@ Proof.
         unfold step_core at 1. rewrite Hm. unfold step_string1. rewrite Hc, Ho.
         rewrite adv_0. unfold step_core. reflexivity.
       * cbn [length lmode adv]. rewrite Hm. unfold end_oct. cbn [lmode set_mode rank]. lia.
-    + split; [cbn; lia|]. split.
-      * cbn [skipn]. rewrite run_cons. f_equal. unfold step, step_core. rewrite Hm.
-        unfold step_string1. rewrite Hc, Ho. reflexivity.
-      * cbn [length lmode adv]. rewrite Hm.
-        assert (rank (lmode (string1_escape st c)) <= 1)%nat.
-        { unfold string1_escape. destruct (lookup c ESC_STRING); [cbn; lia|].
-          destruct (c =? 13); cbn; lia. }
-        cbn [rank]. lia.
+    + destruct (escape_consumes c) eqn:He.
+      * split; [cbn; lia|]. split.
+        -- cbn [skipn]. rewrite run_cons. f_equal. unfold step, step_core. rewrite Hm.
+           unfold step_string1. rewrite Hc, Ho, He. reflexivity.
+        -- cbn [length lmode adv]. rewrite Hm.
+           assert (rank (lmode (string1_escape st c)) <= 1)%nat.
+           { unfold string1_escape. destruct (lookup c ESC_STRING); [cbn; lia|].
+             destruct (c =? 13); cbn; lia. }
+           cbn [rank]. lia.
+      * split; [cbn; lia|]. split.
+        -- cbn [skipn]. rewrite !run_cons. f_equal. unfold step. f_equal.
+           unfold step_core at 1. rewrite Hm. unfold step_string1. rewrite Hc, Ho, He.
+           rewrite adv_0. unfold step_core. reflexivity.
+        -- cbn [length lmode adv set_mode]. rewrite Hm. cbn [rank]. lia.
 Qed.
 
 Lemma p_stringcr_ok st s : s <> [] -> lmode st = MStringCR ->
